@@ -428,3 +428,74 @@ def register(reg):
       "action, stale edges within a bundle, stale entry on re-added row id, entries surviving a failed bundle.",
       "Lean 4 theorems (characterisation of the state machine by per-action predicates + list decomposition) + differential "
       "correspondence through a live engine + independent reference oracle")
+
+  reg("C18", "proof",
+      "GristModel/Recalc.lean models the update loop as a nondeterministic machine (write / eval / circ over cells, "
+      "formulas as deterministic programs over the cells they read, OrderError = first dirty read, cycle branch = "
+      "blocking chain returns to the locked cell). Proved for all programs, stores and schedules: every eval/circ step "
+      "strictly shrinks the dirty set, so runs terminate within |dirty| steps (step_dirty_decreases, run_length_bound); "
+      "while a cell is dirty some transition is enabled (progress - the engine's two 'not making progress' exceptions "
+      "are unreachable; complete_run); the cycle branch fires only on cells that depend on themselves "
+      "(circ_only_on_cycle); at quiescence every formula cell equals its formula applied to the store or holds "
+      "CircularRefError on a self-dependent cell (quiescent_fixpoint), and under prefix-determinism of reads (which sums "
+      "of references satisfy) every cell is a fixpoint (quiescent_fixpoint_strong_partial). A machine-checked "
+      "counterexample shows the strong form fails without that hypothesis. Tie: exhaustive small dependency graphs are "
+      "built in the real engine under several schedules; the order in which the engine finished cells (eval / cycle "
+      "branch) must be an accepted run of the machine and the values must agree. Search: independent reachability "
+      "oracle for which cells lie on cycles; incremental edits that create and break cycles.",
+      "formulas in the exhaustive family are sums of same-row references, strict in errors; cells that merely depend on a "
+      "cycle are compared with the model only (the property is silent about them).",
+      "Lean 4 theorems (termination measure, progress by pigeonhole, invariant) + trace refinement on exhaustive graphs")
+
+  reg("C05", "proof",
+      "On the Recalc machine: inv_preserved (write, eval and circ preserve 'every clean formula cell read only clean cells "
+      "and equals its formula, or is a flagged self-dependent cell'; closure_closed' for invalidation), "
+      "quiescent_consistent, acyclic_unique (the formula fixpoint over given data is unique on ranked documents), "
+      "fresh_run_agrees / fresh_recalc_agrees (an incremental quiescent state and a from-scratch quiescent state with the "
+      "same data agree on every cell). Tie: the machine's enabledness condition is audited on the real engine for every "
+      "evaluation of every bundle (a completed evaluation must not have read a dirty cell), and C18's trace refinement. "
+      "Search (the property itself): after every successful bundle of formula-heavy histories a fresh engine is loaded "
+      "from the data columns only and every table compared. Partial: formulas are abstract deterministic programs; lookup "
+      "index maintenance is proved separately (C13) and tied only through the fresh-engine comparison.",
+      "no volatile / side-effecting user formulas and no trigger-formula data columns (excluded by the property); the "
+      "read audit covers row-specific reads.",
+      "Lean 4 theorems (recalculation invariant, unique fixpoint) + read audit + fresh-engine differential")
+
+  reg("C06", "proof",
+      "schedule_independent_acyclic(_state): two complete runs of the Recalc machine from the same state end in the same "
+      "state on ranked (acyclic) documents; schedule_independent_cone / schedule_independent_cyclic_partial: without any "
+      "rank function they agree on every cell whose dependency cone is acyclic (reachesCycle = false). Tie and search: the "
+      "engine's initial work-item order is permuted (lookup nodes first, the engine's own rule) - every bundle of every "
+      "history runs on 1+3 engines; tables must be identical and stored actions equal as multisets; permuted runs of the "
+      "C18 graphs must be accepted runs of the machine. Partial: cells on or behind cycles are covered by C18's "
+      "characterisation for strict formulas and by the search.",
+      "permutation point = Engine._make_sorted_work_items.",
+      "Lean 4 theorem (confluence via unique fixpoint) + permuted-schedule differential")
+
+  reg("C09", "proof",
+      "GristModel/MetaRefs.lean: decidable predicate metaRefsResolve (every Ref/RefList cell of every metadata reference "
+      "column - read from the current schema.py each run - points at existing rows; fields' columns belong to their "
+      "section's table; one _grist_Tables record + raw section per user table; display/rule helper columns still used) "
+      "and the clean-up of doBulkRemoveRecord. Proved: cleanedCell_* (Ref -> 0, RefList -> filtered in order / None, "
+      "non-reference values untouched), cleanup_then_remove_resolves_partial and no_refs_to_removed (clean-up then "
+      "removal leaves no reference to a removed row and preserves resolution, incl. self references and several specs per "
+      "table), remove_unreferenced_resolves, frame, update_unlisted_preserves, bulkAdd_target_only_preserves_partial, "
+      "refsResolve_same_invariant. Partial: the table-specific cascades (_removeTableRecords, doRemoveColumns, "
+      "_removeViewRecords, summary.update_summary_section) are validated per bundle by evaluating the predicate, not proved. "
+      "Tie: the Lean predicate evaluated on the replica (fed only stored actions) must agree clause by clause with the "
+      "Python twin on the real engine after every bundle. Search: the twin after every successful bundle of removal-heavy "
+      "histories.",
+      "RefListRoundTrip (parse . render = id on the model's own list tokens) is an explicit hypothesis of the RefList "
+      "cases; raw writes of arbitrary ids into metadata are outside the quantifier.",
+      "Lean 4 theorems (reference clean-up invariant) + per-bundle evaluation of the decidable predicate + oracle")
+
+  reg("C29", "proof",
+      "get_formula_value_restores: from ANY engine-model state, side-effect doc actions performed during a single-cell "
+      "evaluation followed by the rollback to the checkpoint taken before it give an observationally equal document and "
+      "exactly the checkpoint's stored/direct/undo lists (instance of C04's rollback theorem); no_side_effects_noop. "
+      "Search (the property itself): read-only calls (fetch_table with and without query, fetch_meta_tables, "
+      "get_formula_error, evaluate_formula, get_formula_prompt, autocomplete, find_col_from_values) with generated "
+      "arguments on documents with summary tables and lookupOrAddDerived formulas: all tables unchanged and a following "
+      "Calculate emits nothing. Partial: rlcompleter / formula_prompt introspection and dirty-set effects are not modelled.",
+      "calls made in-process on the functions main.py exports.",
+      "Lean 4 theorem (rollback at a mid-bundle checkpoint) + direct oracle on read-only calls")
